@@ -530,11 +530,11 @@ type c07Case struct {
 
 func checkC07(c *Ctx) {
 	c.Anchors = []string{"derive"}
-	c.Run.Rule = "cases = (current sources vN, prior state of derived.gen.go). Histories: seeded random programs (2-4 struct types, 2-5 derive calls incl. nested calls whose inner result type feeds an outer call) evolved by edit operators (retype/add/remove field, add/remove/rename call, switch plugin, retype nested result, retype nested argument, remove all calls); after every step goderive runs ONCE over the tree that still holds the previous step's output. Crash points: the prior state is (i) what a goderive process killed by strace at write #1 / #2 of derived.gen.go really leaves, (ii) the first k bytes of the previous and of the new output for k at every line boundary plus seeded random offsets (thorough: additionally every k for the first step of every 12th history when the file is at most 4 KiB). Oracle: exit status 0, bytes identical to a from-scratch run of the same binary on a pristine copy, package compiles, file removed when no calls remain. distinct_nontrivial = distinct (edit-operator or remnant class, outcome) x program"
+	c.Run.Rule = "cases = (current sources vN, prior state of derived.gen.go). Histories: seeded random programs (2-4 struct types, 2-5 derive calls incl. nested calls whose inner result type feeds an outer call) evolved by edit operators (retype/add/remove field, add/remove/rename call, switch plugin, retype nested result, retype nested argument, remove all calls); after every step goderive runs ONCE over the tree that still holds the previous step's output. Crash points: the prior state is (i) what a goderive process killed by strace at write #1 / #2 of derived.gen.go really leaves, (ii) the first k bytes of the previous and of the new output for k at every line boundary plus seeded random offsets (thorough: additionally every k for the first step of the first history when the file is at most 4 KiB). Oracle: exit status 0, bytes identical to a from-scratch run of the same binary on a pristine copy, package compiles, file removed when no calls remain. distinct_nontrivial = distinct (edit-operator or remnant class, outcome) x program"
 	c.Run.Assume = []string{"the from-scratch run of the same binary is the reference (determinism of that run is C08's subject)", "strace -e inject=write:signal=KILL yields the real on-disk state of an interrupted write"}
 	c.Run.Floor = 20
 	var cases []c07Case
-	nh := tierN(c, 10, 24)
+	nh := tierN(c, 10, 16)
 	steps := tierN(c, 3, 4)
 	_, straceErr := exec.LookPath("strace")
 	perHist := make([][]c07Case, nh)
@@ -640,7 +640,7 @@ func checkC07(c *Ctx) {
 					return
 				}
 				ks := map[int]bool{0: true}
-				if !c.Quick && len(full) <= 4096 && h%12 == 0 && s == 0 {
+				if !c.Quick && len(full) <= 4096 && h == 0 && s == 0 {
 					// every offset: a few histories only (each offset is one goderive run)
 					for k := 0; k < len(full); k++ {
 						ks[k] = true
